@@ -173,9 +173,11 @@ void Rpc::onRecvRespond(int id, int errcode, const Json &js_result)
     RECORD_SCOPE();
     auto iter = request_callback_.find(id);
     if (iter != request_callback_.end()) {
-        if (iter->second)
-            iter->second(errcode, js_result);
+        //! 先取出并删除，再回调：回调里可能再次进入本对象（重复的回复、新的请求、cleanup()）
+        RequestCallback cb = std::move(iter->second);
         request_callback_.erase(iter);
+        if (cb)
+            cb(errcode, js_result);
     }
 }
 
@@ -183,9 +185,11 @@ void Rpc::onRequestTimeout(int id)
 {
     auto iter = request_callback_.find(id);
     if (iter != request_callback_.end()) {
-        if (iter->second)
-            iter->second(ErrorCode::kRequestTimeout, Json());
+        //! 同 onRecvRespond()：先取出并删除，再回调
+        RequestCallback cb = std::move(iter->second);
         request_callback_.erase(iter);
+        if (cb)
+            cb(ErrorCode::kRequestTimeout, Json());
     }
 }
 
